@@ -78,6 +78,10 @@ pub fn plan(tier: &str, seed: u64) -> Vec<Batch> {
             v.push(Batch { check: "C06".into(), phase: "static".into(), uni: uni.clone(), seed, lo: i * PER_BATCH, hi: (i + 1) * PER_BATCH, fresh: false, tier: tier.into(), extra: Value::Null });
         }
         if ui < 2 {
+            // fixed layouts under every single fault placement of the lookup
+            for i in 0..fault_layouts(&uni).len() as u64 {
+                v.push(Batch { check: "C06".into(), phase: "fault-enum".into(), uni: uni.clone(), seed, lo: i, hi: i + 1, fresh: false, tier: tier.into(), extra: Value::Null });
+            }
             v.push(Batch { check: "C06".into(), phase: "canonical".into(), uni: uni.clone(), seed, lo: 0, hi: canonical_cases(&uni).len() as u64, fresh: false, tier: tier.into(), extra: Value::Null });
             let nm = race_matrix().len() as u64;
             let mut lo = 0;
@@ -155,6 +159,67 @@ pub fn gen_case(seed: u64, idx: u64, uni: &UniCfg) -> Case {
         c.plan.seeded = Some(crate::sup::Seeded { seed: rng.next(), p_switch: 0, p_attack: 0, p_fault: *rng.pick(&[30u64, 80, 150]), max_attacks: 0, pct_depth: 0 });
     }
     c
+}
+
+/// layouts for the fault enumeration: (mounts, constructor, lookup)
+pub fn fault_layouts(uni: &UniCfg) -> Vec<Case> {
+    let mut v = Vec::new();
+    let mk = |mounts: Vec<Mutation>, ctor: Option<(ProcCtor, &'static str)>, lookup: Op| {
+        let mut c = Case::new("C06", "fault-enum", uni.clone());
+        let mut ops = vec![OpSpec::new(Op::Sup { muts: mounts })];
+        let facade = if ctor.is_none() { Facade::C } else { Facade::Rust };
+        if let Some((ct, _)) = ctor {
+            ops.push(OpSpec::new(Op::ProcNew { ctor: ct, store: 0 }));
+        }
+        ops.push(OpSpec::new(lookup).facade(facade));
+        c.world = Some(warm_world_with_outside());
+        c.jobs = vec![ops];
+        c.extra = json!({"ctor": ctor.map(|c| c.1).unwrap_or("global"), "ctor_before_mounts": ctor.is_none()});
+        c
+    };
+    let bind = |src: &str, dst: &str, nofollow: bool| Mutation::MountOn { src: src.into(), dst: dst.into(), nofollow };
+    let open = |h: Option<usize>, base: Base, p: &str| Op::ProcOpen { handle: h, base, path: p.into(), flags: libc::O_RDONLY | libc::O_NONBLOCK, follow: false };
+    for (ct, h) in [(Some((ProcCtor::FromPlainOpen, "plain-open")), Some(0)), (Some((ProcCtor::FromOpenTreeRec, "open_tree-recursive")), Some(0)), (Some((ProcCtor::New, "new")), Some(0)), (None, None)] {
+        v.push(mk(vec![bind("/proc/1/status", "/proc/self/status", false)], ct, open(h, Base::SelfP, "status")));
+        v.push(mk(vec![bind("/proc/1/status", "/proc/self/status", false)], ct, open(h, Base::Root, "self/status")));
+        v.push(mk(vec![bind("/mnt/w/outside/secret", "/proc/cpuinfo", false)], ct, open(h, Base::Root, "cpuinfo")));
+        v.push(mk(vec![bind("/proc/version", "/proc/cpuinfo", false)], ct, open(h, Base::Root, "cpuinfo")));
+        v.push(mk(vec![bind("nofollow:/mnt/w/outside/to-pid1", "/proc/self", true)], ct, open(h, Base::SelfP, "status")));
+        v.push(mk(vec![bind("/proc/1/status", "/proc/self/status", false)], ct, Op::ProcReadlink { handle: h, base: Base::SelfP, path: "exe".into(), bufsz: 256 }));
+    }
+    v
+}
+
+fn run_fault_enum(u: &mut Universe, b: &Batch, idx: u64, st: &mut Stats) -> bool {
+    let base_case = fault_layouts(&b.uni)[idx as usize].clone();
+    // the lookup's system calls (with the mounts in place, no fault yet)
+    let mut h0 = H::new();
+    let out0 = run_case(u, &base_case, &mut h0, false);
+    cleanup(&h0.dsts);
+    if out0.harness_error.is_some() {
+        st.harness_errors.push(format!("fault-enum {idx}: {:?}", out0.harness_error));
+        return false;
+    }
+    if mount_ids() != h0.base_mounts {
+        u.poisoned = true;
+        return false;
+    }
+    let target = base_case.jobs[0].len() - 1;
+    let sites: Vec<(usize, i64)> = out0.trace.iter().filter(|e| e.lib && e.op == Some(target) && e.nr != crate::seam::HYPERCALL_NR && e.nr != libc::SYS_futex).map(|e| (e.step, e.nr)).collect();
+    for (step, nr) in sites {
+        for f in crate::sup::fault_catalogue(nr) {
+            let mut case = base_case.clone();
+            case.plan.script = vec![Dec { step, fault: Some(f), ..Default::default() }];
+            if !run_pair(u, &case, st, false) {
+                return false;
+            }
+            st.count("fault_enum.placements", 1);
+            if u.poisoned {
+                return false;
+            }
+        }
+    }
+    true
 }
 
 /// fixed layouts that every run covers (the generated ones vary with the seed)
@@ -412,7 +477,7 @@ pub fn judge(case: &Case, base: &[(usize, String)], got: &H, op_shift: usize) ->
 fn run_pair(u: &mut Universe, case: &Case, st: &mut Stats, sample: bool) -> bool {
     let bcase = baseline_of(case);
     let mut hb = H::new();
-    hb.faulted_case = case.plan.seeded.is_some();
+    hb.faulted_case = case.plan.seeded.is_some() || case.plan.script.iter().any(|d| d.fault.is_some());
     let outb = run_case(u, &bcase, &mut hb, false);
     if let Some(e) = &outb.harness_error {
         st.harness_errors.push(format!("baseline: {e}"));
@@ -422,7 +487,7 @@ fn run_pair(u: &mut Universe, case: &Case, st: &mut Stats, sample: bool) -> bool
         return true;
     }
     let mut h = H::new();
-    h.faulted_case = case.plan.seeded.is_some();
+    h.faulted_case = case.plan.seeded.is_some() || case.plan.script.iter().any(|d| d.fault.is_some());
     let out = run_case(u, case, &mut h, false);
     // mounts placed by scripted decisions (race phase) are only known now: the absolute
     // clause "never an object of an attacker mount" is evaluated for them here
@@ -627,6 +692,11 @@ pub fn run(u: &mut Universe, b: &Batch, st: &mut Stats) {
             }
             "race" => {
                 if !race_cases(u, b.seed, idx, &b.uni, st) {
+                    return;
+                }
+            }
+            "fault-enum" => {
+                if !run_fault_enum(u, b, idx, st) {
                     return;
                 }
             }
